@@ -146,6 +146,7 @@ def check_C15(c):
 
 
 def check_C16(c):
+    c.model_check("MC_Checksums", "MC_Checksums.cfg", workers=4)
     c.scenario("checksums")
     c.scenario("checksums", features=["simd"])
     return c.finish("model_checking",
